@@ -59,6 +59,20 @@ theorem arrSet_ok {n : Nat} {α : Type} (what : String) (a : Vector α n) (i : B
     arrSet what a i v = .ok (a.set i.toNat v) := by
   unfold arrSet; simp [h]
 
+theorem toNat_lt_of_lt {w : Nat} (a b : BitVec w) (h : a < b) : a.toNat < b.toNat := BitVec.lt_def.mp h
+
+/-- a bind whose first part succeeds with a value satisfying `P` -/
+theorem Chk.bind_of {α β : Type} {x : Chk α} {k : α → Chk β} {P : α → Prop} (Q : Chk β → Prop)
+    (hx : ∃ a, x = .ok a ∧ P a) (hk : ∀ a, P a → Q (k a)) : Q (x >>= k) := by
+  obtain ⟨a, ha, hp⟩ := hx
+  rw [ha]; exact hk a hp
+
+theorem Chk.ite_of {β : Type} (Q : Chk β → Prop) {c : Prop} [Decidable c] {a b : Chk β} (ha : c → Q a) (hb : ¬ c → Q b) :
+    Q (if c then a else b) := by
+  by_cases hc : c
+  · rw [if_pos hc]; exact ha hc
+  · rw [if_neg hc]; exact hb hc
+
 /-! ### `Memory` (core/Memory.cpp): total over 32-bit addresses, a byte never written reads 0 -/
 
 abbrev Mem := BitVec 32 → BitVec 8
@@ -80,6 +94,20 @@ structure MemW where
 
 def MemW.write8 (m : MemW) (a : BitVec 32) (v : BitVec 8) : MemW :=
   { mem := m.mem.write8 a v, writes := m.writes ++ [(a, v)] }
+
+/-- `l` extends `base` only by writes below `bound` -/
+def WOK (bound : BitVec 32) (base l : List (BitVec 32 × BitVec 8)) : Prop := ∀ w ∈ l, w ∈ base ∨ w.1 < bound
+
+theorem WOK.refl (bound : BitVec 32) (b : List (BitVec 32 × BitVec 8)) : WOK bound b b := fun _ h => Or.inl h
+
+theorem WOK.write8 (bound : BitVec 32) (base : List (BitVec 32 × BitVec 8)) (m : MemW) (a : BitVec 32) (v : BitVec 8)
+    (h : WOK bound base m.writes) (ha : a < bound) : WOK bound base (m.write8 a v).writes := by
+  intro w hw
+  unfold MemW.write8 at hw
+  simp only [List.mem_append, List.mem_cons, List.not_mem_nil, or_false] at hw
+  rcases hw with hw | hw
+  · exact h w hw
+  · right; rw [hw]; exact ha
 
 /-- outcome of `run(-1, 1)` in step mode: return value (0 executed / stopped, -1 illegal) and the state -/
 structure StepOut (σ : Type) where
